@@ -58,6 +58,7 @@ type Engine struct {
 	rangeKeyBase   map[string]map[int]string // claims/rangekeys.json
 	loopsBase      map[string][]string       // claims/loops.json
 	litFPs         map[string][]string       // function -> fingerprints of its function literals, in source order
+	unbound        []unboundContract         // contracts that match no function of the current tree
 }
 
 func loadEngine(repo string) (*Engine, error) {
@@ -224,7 +225,8 @@ func loadEngine(repo string) (*Engine, error) {
 			// case contract: same function, verified separately under its own precondition
 			base, ok := e.targets[key[:i]]
 			if !ok {
-				return nil, fmt.Errorf("%s:%d: case contract %s does not match any function", fs.File, fs.Line, key)
+				e.unbound = append(e.unbound, unboundContract{key, fs, fmt.Sprintf("%s:%d: case contract %s does not match any function", fs.File, fs.Line, key)})
+				continue
 			}
 			e.targets[key] = &Target{Key: key, pkg: base.pkg, decl: base.decl, lit: base.lit, sig: base.sig, spec: fs}
 			continue
@@ -237,7 +239,8 @@ func loadEngine(repo string) (*Engine, error) {
 				fs.TrustWhy = "function value built from parser combinators"
 			}
 		} else if !e.isInterfaceContract(key) {
-			return nil, fmt.Errorf("%s:%d: contract for %s does not match any function in /repo", fs.File, fs.Line, key)
+			// only the properties this contract carries are affected (reported by the check driver)
+			e.unbound = append(e.unbound, unboundContract{key, fs, fmt.Sprintf("%s:%d: contract for %s does not match any function in /repo", fs.File, fs.Line, key)})
 		}
 	}
 	e.loadTime = time.Since(t0).Seconds()
@@ -346,6 +349,12 @@ type FuncResult struct {
 	ParamTerms  []paramTerm
 	RangeKeys   map[int]string
 	ctx         *FnCtx
+}
+
+type unboundContract struct {
+	key  string
+	spec *FuncSpec
+	msg  string
 }
 
 type paramTerm struct {
@@ -901,6 +910,31 @@ func (e *Engine) numberLits(key string, root ast.Node, p *packages.Package) map[
 	e.litFPs[key] = fps
 	if base, ok := litBaseline[key]; ok && len(base) != len(fps) {
 		if m := loopMap(base, fps); m != nil {
+			// second pass: a recorded literal that found no partner by its full fingerprint (its
+			// first statement changed, e.g. a nested literal was added at its start) is matched to
+			// the next unmatched current literal with the same signature
+			sig := func(fp string) string {
+				if i := strings.Index(fp, " | "); i >= 0 {
+					return fp[:i]
+				}
+				return fp
+			}
+			used := map[int]bool{}
+			for _, b := range m {
+				used[b] = true
+			}
+			for b := 1; b <= len(base); b++ {
+				if used[b] {
+					continue
+				}
+				for c := 1; c <= len(fps); c++ {
+					if m[c] > 1000 && sig(fps[c-1]) == sig(base[b-1]) {
+						m[c] = b
+						used[b] = true
+						break
+					}
+				}
+			}
 			for i, lit := range lits {
 				out[m[i+1]] = lit
 			}
